@@ -21,6 +21,8 @@ package vc
 // Both are decided by enumeration of the instructions, not by a solver.
 
 import (
+	"go/token"
+	"go/types"
 	"fmt"
 	"sort"
 	"strings"
@@ -315,6 +317,98 @@ func (e *Engine) VerifyStructural(name string) {
 			return
 		}
 		e.Obls = append(e.Obls, &Obligation{Name: oname, Kind: "structural", Func: oname, Goal: True, Clause: fmt.Sprintf("%s (%d make sites in %d functions)", sc.Text, sites, n), Where: where})
+	case "consts_covered":
+		// consts_covered (IFACE).METHOD#ARG in PKG1 by PKG2@substr
+		// Every constant passed as argument ARG of METHOD at a call site in PKG1 is compared against
+		// (==, !=, switch) in some function of PKG2 whose name contains substr: what one side emits,
+		// the other side has a case for.
+		if len(f) < 6 || f[2] != "in" || f[4] != "by" {
+			fail("consts_covered (IFACE).METHOD#ARG in PKG1 by PKG2@substr")
+			return
+		}
+		method, argIdx := f[1], 0
+		if k := strings.Index(method, "#"); k >= 0 {
+			fmt.Sscanf(method[k+1:], "%d", &argIdx)
+			method = method[:k]
+		}
+		pkg1 := resolvePkg(f[3])
+		pk2, substr := f[5], ""
+		if k := strings.Index(pk2, "@"); k >= 0 {
+			pk2, substr = pk2[:k], pk2[k+1:]
+		}
+		pkg2 := resolvePkg(pk2)
+		emitted := map[string]string{} // constant value -> first site
+		var constType types.Type
+		sites, dynamic := 0, 0
+		for _, fn := range fns {
+			if pkgOf(fn) != pkg1 || len(fn.Blocks) == 0 {
+				continue
+			}
+			for _, b := range fn.Blocks {
+				for _, in := range b.Instrs {
+					cl, ok := in.(*ssa.Call)
+					if !ok {
+						continue
+					}
+					c := cl.Common()
+					if !c.IsInvoke() || c.Method.FullName() != method || argIdx >= len(c.Args) {
+						continue
+					}
+					sites++
+					k, ok := c.Args[argIdx].(*ssa.Const)
+					if !ok || k.Value == nil {
+						dynamic++
+						continue
+					}
+					constType = k.Type()
+					v := k.Value.ExactString()
+					if sk := shortKey(funcKey(fn)); !strings.Contains(" "+emitted[v]+" ", " "+sk+" ") {
+						emitted[v] = strings.TrimSpace(emitted[v] + " " + sk)
+					}
+				}
+			}
+		}
+		if sites == 0 || len(emitted) == 0 {
+			fail("no call of " + method + " with a constant argument found in " + pkg1)
+			return
+		}
+		handled := map[string]bool{}
+		n := 0
+		for _, fn := range fns {
+			if pkgOf(fn) != pkg2 || len(fn.Blocks) == 0 || !strings.Contains(shortKey(funcKey(fn)), substr) {
+				continue
+			}
+			n++
+			for _, b := range fn.Blocks {
+				for _, in := range b.Instrs {
+					bo, ok := in.(*ssa.BinOp)
+					if !ok || (bo.Op != token.EQL && bo.Op != token.NEQ) {
+						continue
+					}
+					for _, op := range []ssa.Value{bo.X, bo.Y} {
+						if k, ok := op.(*ssa.Const); ok && k.Value != nil && types.Identical(k.Type(), constType) {
+							handled[k.Value.ExactString()] = true
+						}
+					}
+				}
+			}
+		}
+		if n == 0 {
+			fail("no function matching " + substr + " in " + pkg2)
+			return
+		}
+		var missing []string
+		for v, site := range emitted {
+			if !handled[v] {
+				missing = append(missing, fmt.Sprintf("%s value %s (emitted in %s)", types.TypeString(constType, func(p *types.Package) string { return p.Name() }), v, site))
+			}
+		}
+		sort.Strings(missing)
+		if len(missing) > 0 {
+			fail("emitted but never compared against in " + pkg2 + " " + substr + ": " + strings.Join(missing, "; "))
+			return
+		}
+		e.Obls = append(e.Obls, &Obligation{Name: oname, Kind: "structural", Func: oname, Goal: True, Clause: fmt.Sprintf("%s (%d call sites, %d constants, %d non-constant arguments; %d functions scanned)", sc.Text, sites, len(emitted), dynamic, n), Where: where})
 	default:
 		fail("unknown structural check " + f[0])
 	}
